@@ -76,6 +76,12 @@ def ignore_aliases(data):
     # the same python object are written as yaml anchors and aliases
     if data is None or isinstance(data, (str, bool, int, float, np.generic)):
         return True
+    # sequences are always written out in full: a tuple shared by two
+    # attributes (e.g. the default translation and rotation of a
+    # RigidCluster) comes back as two lists, so an alias would not survive
+    # a save/load cycle
+    if isinstance(data, (list, tuple)):
+        return True
     try:
         # numpy arrays no longer want to be compared to None, so instead check for a none by looking for if it is an instance of NoneType
         if len(data) == 0:
